@@ -160,47 +160,207 @@ def _regex_of(fx, name):
     return b['p'].value
 
 
-@rule('C16', 'R1', 25, 'every parameter value that reaches a WIFI / MeCard / vCard payload is escaped, validated or constant')
+HOSTILE = 'a;b:c,d\\e"f\ng\rh;;\\;'      # ; : , backslash " LF CR, a doubled delimiter, backslash before a delimiter
+
+
+def mark(p, k=''):
+    return f'<{p}{k}>' + HOSTILE
+
+
+def split_unescaped(text, sep):
+    """Split at `sep` not preceded by an (unescaped) backslash."""
+    out, cur, i = [], '', 0
+    while i < len(text):
+        ch = text[i]
+        if ch == '\\' and i + 1 < len(text):
+            cur += text[i:i + 2]
+            i += 2
+            continue
+        if ch == sep:
+            out.append(cur)
+            cur = ''
+        else:
+            cur += ch
+        i += 1
+    out.append(cur)
+    return out
+
+
+def unescape(text):
+    """Remove one backslash in front of every escaped character."""
+    out, i = '', 0
+    while i < len(text):
+        if text[i] == '\\' and i + 1 < len(text):
+            out += text[i + 1]
+            i += 2
+        else:
+            out += text[i]
+            i += 1
+    return out
+
+
+def fields_of(payload, prefix):
+    """[(key, value)] of a WIFI / MeCard payload: split at unescaped ';', key up to the first unescaped ':', value unescaped."""
+    if not payload.startswith(prefix):
+        return f'payload does not start with {prefix}'
+    pieces = split_unescaped(payload[len(prefix):], ';')
+    while pieces and pieces[-1] == '':
+        pieces.pop()
+    out = []
+    for pc in pieces:
+        kv = split_unescaped(pc, ':')
+        if len(kv) < 2:
+            return f'piece {pc[:30]!r} has no key'
+        out.append((kv[0], unescape(':'.join(kv[1:]))))
+    return out
+
+
+class DateModel:
+    """A date object abstracted to what strftime yields."""
+    _model = ('strftime',)
+
+    def strftime(self, fmt):
+        return {'%Y%m%d': '20240229', '%Y-%m-%d': '2024-02-29'}.get(fmt, f'<strftime {fmt}>')
+
+
+def _call(fx, it, fname_, **kw):
+    genv = callable_env(fx.forest, 'helpers', it)
+    try:
+        return FuncVal(fx.fn('helpers', fname_), genv, it)(**kw)
+    except PyRaise as e:
+        return ('raises', e.name)
+
+
+@rule('C16', 'R1', 30, 'WIFI / MeCard payloads split at unescaped ";" into exactly the supplied fields, values recovered verbatim; every vCard value occupies exactly one content line (hostile values in every parameter)')
 def r1(fx):
-    sanit = _sanitizers(fx)
-    need(set(sanit) >= {'_escape_mecard', '_escape_vcard'}, f'escaper functions not recognised: {sanit}')
-    want_table = {'make_wifi_data': '_MECARD_ESCAPE', 'make_mecard_data': '_MECARD_ESCAPE', 'make_vcard_data': '_VCARD_ESCAPE'}
-    informational = {('make_vcard_data', 'lat'), ('make_vcard_data', 'lng')}     # documented as floats
-    for fname, table in want_table.items():
-        fn = fx.fn('helpers', fname)
-        esc_alias = {}
-        for s in fn.body:
-            if isinstance(s, ast.Assign) and isinstance(s.value, ast.Name) and s.value.id in sanit:
-                esc_alias[ast.unparse(s.targets[0])] = sanit[s.value.id]
-        validators = _validators(fx, fn)
-        flows = {}
-        for expr, host, node in _payload_values(fn):
-            c = _classify(fx, expr, host, fn, sanit, esc_alias, validators)
-            if c == 'const':
-                continue
-            key = ast.unparse(expr)
-            params = sorted(_deps(expr, {**_local_defs(fn), **(_local_defs(host) if host is not fn else {})},
-                                  set(src.params(fn)) | (set(src.params(host)) if host is not fn else set())))
-            flows.setdefault(key, (c, node, params))
-        for key, (c, node, params) in sorted(flows.items()):
-            who = ','.join(p for p in params if p in src.params(fn)) or ','.join(params)
-            if c[0] == 'escaped':
-                ok = c[1] in (table, '_VCARD_ESCAPE_NEWLINE' if fname == 'make_vcard_data' else table)
-                yield ob(f'{fname}: {{{key}}} <- {who}', ok, node, got=f'escaped with {c[1]}', want=f'escaped with {table}')
-            elif c[0] == 'validated':
-                yield ob(f'{fname}: {{{key}}} <- {who}', True, node, got=f'validated by {c[1]}', want='escaped or validated')
+    it = Interp(max_steps=20_000_000)
+    # ---- WIFI
+    fn = fx.fn('helpers', 'make_wifi_data')
+    for security in (None, 'wpa', 'nopass', mark('security')):
+        for password in (None, mark('password'), ''):
+            for hidden in (False, True):
+                got = _call(fx, it, 'make_wifi_data', ssid=mark('ssid'), password=password, security=security, hidden=hidden)
+                want = ([('T', security if security == 'nopass' else security.upper())] if security else []) + [('S', mark('ssid'))] + \
+                    ([('P', password)] if password is not None else []) + ([('H', 'true')] if hidden else [])
+                f = fields_of(got, 'WIFI:') if isinstance(got, str) else got
+                yield ob(f'WIFI security={security!r:.12} password={"given" if password else password!r} hidden={hidden}', f == want, fn,
+                         got=f if f != want else 'the supplied fields', want='the supplied fields')
+    # ---- MeCard
+    fn = fx.fn('helpers', 'make_mecard_data')
+    single_p = {'reading': 'SOUND', 'nickname': 'NICKNAME', 'memo': 'MEMO'}
+    multi_p = {'email': 'EMAIL', 'phone': 'TEL', 'videophone': 'TELAV', 'url': 'URL'}
+    adr_p = ('pobox', 'roomno', 'houseno', 'city', 'prefecture', 'zipcode', 'country')
+    params = src.params(fn)
+    known = {'name', 'birthday'} | set(single_p) | set(multi_p) | set(adr_p)
+    yield ob('MeCard: the parameters are the documented ones', set(params) == known, fn, got=sorted(set(params) ^ known), want=[])
+    scen = []
+    scen.append(('all parameters hostile', dict({p: mark(p) for p in single_p}, name=mark('name'), birthday=mark('birthday'),
+                                                **{p: [mark(p, 1), mark(p, 2)] for p in multi_p}, **{p: mark(p) for p in adr_p})))
+    scen.append(('name only', dict(name=mark('name'))))
+    scen.append(('single strings for the multi-valued parameters, one address part', dict(name='N', city=mark('city'), **{p: mark(p) for p in multi_p})))
+    scen.append(('birthday as a date object', dict(name='N', birthday=DateModel())))
+    scen.append(('birthday as a number', dict(name='N', birthday=19700101)))
+    for title, kw in scen:
+        got = _call(fx, it, 'make_mecard_data', **kw)
+        want = [('N', kw['name'])]
+        for p, key in single_p.items():
+            if kw.get(p):
+                want.append((key, kw[p]))
+        for p, key in multi_p.items():
+            v = kw.get(p)
+            for x in ([v] if isinstance(v, str) else (v or [])):
+                want.append((key, x))
+        if kw.get('birthday'):
+            b = kw['birthday']
+            want.append(('BDAY', '20240229' if isinstance(b, DateModel) else str(b)))
+        if any(kw.get(p) for p in adr_p):
+            want.append(('ADR', ','.join(kw.get(p) or '' for p in adr_p)))
+        f = fields_of(got, 'MECARD:') if isinstance(got, str) else got
+        ok = isinstance(f, list) and sorted(f) == sorted(want)
+        yield ob(f'MeCard: {title}', ok, fn, got='the supplied fields' if ok else (f if not isinstance(f, list) else
+                 f'missing {sorted(set(want) - set(f))[:2]} unexpected {sorted(set(f) - set(want))[:2]}'), want='the supplied fields')
+    # ---- vCard
+    fn = fx.fn('helpers', 'make_vcard_data')
+    v_single = {'displayname': 'FN', 'org': 'ORG', 'nickname': 'NICKNAME', 'source': 'SOURCE', 'memo': 'NOTE'}
+    v_multi = {'email': 'EMAIL', 'phone': 'TEL', 'fax': 'TEL;TYPE=FAX', 'videophone': 'TEL;TYPE=VIDEO', 'cellphone': 'TEL;TYPE=CELL',
+               'homephone': 'TEL;TYPE=HOME', 'workphone': 'TEL;TYPE=WORK', 'url': 'URL', 'title': 'TITLE', 'photo_uri': 'PHOTO;VALUE=uri'}
+    v_adr = ('pobox', 'street', 'city', 'region', 'zipcode', 'country')
+    known = {'name', 'birthday', 'rev', 'lat', 'lng'} | set(v_single) | set(v_multi) | set(v_adr)
+    yield ob('vCard: the parameters are the documented ones', set(src.params(fn)) == known, fn, got=sorted(set(src.params(fn)) ^ known), want=[])
+
+    def vunesc(t):
+        out, i = '', 0
+        while i < len(t):
+            if t[i] == '\\' and i + 1 < len(t) and t[i + 1] in ',;n':
+                out += '\n' if t[i + 1] == 'n' else t[i + 1]
+                i += 2
             else:
-                if all((fname, p) in informational for p in c[1]):
-                    yield Ob(f'{fname}: {{{key}}} <- {who}', True, f'helpers.{fname}', node.lineno, 'numeric parameter, not escaped (informational)',
-                             'documented as float', False)
-                else:
-                    yield ob(f'{fname}: {{{key}}} <- {who}', False, node, got=f'raw value of {sorted(c[1])} interpolated', want=f'escape({who})')
-    # every parameter of the three builders reaches the payload (none silently dropped)
-    for fname in want_table:
-        fn = fx.fn('helpers', fname)
-        used = {n.id for n in ast.walk(fn) if isinstance(n, ast.Name) and isinstance(n.ctx, ast.Load)}
-        missing = [p for p in src.params(fn) if p not in used]
-        yield ob(f'{fname}: every parameter is used', not missing, fn, got=missing, want=[])
+                out += t[i]
+                i += 1
+        return out
+    vh = 'a;b:c,d"f\ng\rh;;,'         # no backslash: the vCard tables do not escape it (one-line integrity is what is decided)
+    vm = lambda p, k='': f'<{p}{k}>' + vh      # noqa: E731
+    scen = [('all text parameters hostile', dict({p: vm(p) for p in v_single}, name=vm('name'), birthday='2024-02-29', rev='2024-02-29T10:00:00',
+                                                  lat=1.5, lng=-2.25, **{p: [vm(p, 1), vm(p, 2)] for p in v_multi}, **{p: vm(p) for p in v_adr})),
+            ('name and displayname only', dict(name=vm('name'), displayname=vm('displayname'))),
+            ('single strings for the multi-valued parameters, dates as objects', dict(name='N', displayname='D', birthday=DateModel(), rev=DateModel(),
+                                                                                       city=vm('city'), **{p: vm(p) for p in v_multi}))]
+    for title, kw in scen:
+        got = _call(fx, it, 'make_vcard_data', **kw)
+        if not isinstance(got, str):
+            yield ob(f'vCard: {title}', False, fn, got=got, want='a payload')
+            continue
+        lines = got.split('\r\n')
+        probs = []
+        if lines[:2] != ['BEGIN:VCARD', 'VERSION:3.0'] or lines[-2:] != ['END:VCARD', '']:
+            probs.append(f'frame {lines[:2]} ... {lines[-2:]}')
+        content = lines[2:-2]
+        if any('\n' in ln or '\r' in ln for ln in lines):
+            probs.append('a bare CR or LF inside a line')
+        want = [('N', kw['name'].replace('\r', ''))]
+        for p, key in v_single.items():
+            if kw.get(p):
+                want.append((key, kw[p].replace('\r', '')))
+        for p, key in v_multi.items():
+            v = kw.get(p)
+            for x in ([v] if isinstance(v, str) else (v or [])):
+                want.append((key, x.replace('\r', '')))
+        if any(kw.get(p) for p in v_adr):
+            want.append(('ADR', None))
+        if kw.get('birthday'):
+            want.append(('BDAY', '2024-02-29'))
+        if kw.get('rev'):
+            want.append(('REV', '2024-02-29' if isinstance(kw['rev'], DateModel) else kw['rev']))
+        if kw.get('lat'):
+            want.append(('GEO', f'{kw["lat"]};{kw["lng"]}'))
+        gotf = []
+        for ln in content:
+            key, sep, val = ln.partition(':')
+            if not sep:
+                probs.append(f'line without a property name: {ln[:30]!r}')
+                continue
+            gotf.append((key, None if key == 'ADR' else (val if key in ('N', 'GEO') else vunesc(val))))
+        wantn = [(k, v if k != 'N' else v) for k, v in want]
+        # N keeps `;` (component delimiter): compare with line breaks escaped only
+        gotn = [(k, (v.replace('\\n', '\n') if k == 'N' else v)) for k, v in gotf]
+        if sorted(gotn, key=repr) != sorted(wantn, key=repr):
+            miss = [x for x in wantn if x not in gotn][:2]
+            extra = [x for x in gotn if x not in wantn][:2]
+            probs.append(f'{len(content)} content lines for {len(want)} values; missing {miss} unexpected {extra}')
+        if ('ADR', None) in want:
+            adr = [ln for ln in content if ln.startswith('ADR:')]
+            comps = split_unescaped(adr[0][4:], ';') if len(adr) == 1 else []
+            wantc = [vh and (kw.get(v_adr[0]) or '')] + [''] + [(kw.get(p) or '') for p in v_adr[1:]]
+            if [vunesc(c) for c in comps] != [c.replace('\r', '') for c in wantc]:
+                probs.append(f'ADR components {comps[:3]}')
+        yield ob(f'vCard: {title}', not probs, fn, got='; '.join(probs[:2]) or 'one content line per value', want='one content line per value')
+    # dates and numbers that are not what they should be are refused
+    for p, bad in (('birthday', '2024-02-29\r\nX:1'), ('birthday', 'tomorrow'), ('rev', '2024-02-29\nNOTE:x'), ('birthday', 20240229)):
+        got = _call(fx, it, 'make_vcard_data', name='N', displayname='D', **{p: bad})
+        yield ob(f'vCard: {p}={bad!r} is refused', got == ('raises', 'ValueError'), fn, got=got if not isinstance(got, str) else 'accepted', want='ValueError')
+    for kw in (dict(lat=1.0), dict(lng=2.0)):
+        got = _call(fx, it, 'make_vcard_data', name='N', displayname='D', **kw)
+        yield ob(f'vCard: incomplete geo information {kw} is refused', got == ('raises', 'ValueError'), fn, got=got if not isinstance(got, str) else 'accepted', want='ValueError')
 
 
 @rule('C16', 'R2', 8, 'escape tables: MeCard maps \\ ; : " to backslash + char; vCard tables leave no CR/LF; validators cannot match a line break and end in \\Z')
@@ -256,56 +416,69 @@ def _appends(fn, name):
     return out
 
 
-@rule('C16', 'R4', 6, 'mailto: texts percent-encoded, ?/& delimiter typestate; geo: fixed-point numbers without trailing zeros')
+@rule('C16', 'R4', 20, 'mailto: addresses joined by commas, texts percent-encoded, first parameter after "?", later ones after "&"; geo: fixed-point numbers without trailing zeros')
 def r4(fx):
+    from urllib.parse import unquote
+    it = Interp(max_steps=20_000_000)
     fn = fx.fn('helpers', 'make_make_email_data')
-    vals = list(_payload_values(fn))
-    quoted = [ast.unparse(e) for e, h, n in vals if pat.match(e, 'quote(val.encode("utf-8"))') is not None]
-    loops = [s for s in fn.body if isinstance(s, ast.For)]
-    need(len(loops) == 2, 'make_make_email_data: two parameter loops expected')
-    l2 = loops[1]
-    keys2 = ast.unparse(l2.iter)
-    yield ob('subject and body pass quote(utf-8 bytes)', len(quoted) == 1 and "('subject', subject)" in keys2 and "('body', body)" in keys2, l2,
-             got=(quoted, keys2), want='quote(val.encode("utf-8")) for subject, body')
-    # typestate: delim becomes '&' only where a parameter was appended with the current delim
-    init = single([s for s in fn.body if isinstance(s, ast.Assign) and ast.unparse(s.targets[0]) == 'delim'], "initial delim")
-    yield ob("delimiter starts as '?'", isinstance(init.value, ast.Constant) and init.value.value == '?', init, got=ast.unparse(init.value), want="'?'")
-    for i, lp in enumerate(loops):
-        assigns = [s for s in src.statements(lp.body) if isinstance(s, ast.Assign) and ast.unparse(s.targets[0]) == 'delim']
-        a = single(assigns, f"delim assignment in loop {i + 1}")
-        blk, idx = nf.block_of(a)
-        used_before = [s for s in blk[:idx] if isinstance(s, ast.Expr) and isinstance(s.value, ast.Call)
-                       and src.call_name(s.value) == 'data.append' and any(isinstance(n, ast.Name) and n.id == 'delim' for n in ast.walk(s.value))]
-        appends_all = [s for s in src.statements(lp.body) if isinstance(s, ast.Expr) and isinstance(s.value, ast.Call)
-                       and src.call_name(s.value) == 'data.append']
-        same_block = all(nf.block_of(s)[0] is blk for s in appends_all)
-        yield ob(f"loop {i + 1}: delim = '&' exactly where a parameter was appended using delim", bool(used_before) and same_block
-                 and isinstance(a.value, ast.Constant) and a.value.value == '&', a,
-                 got=f"`{ast.unparse(a)}` under `{nf.guard_text(nf.guards_of(a, lp))}`; append under `{nf.guard_text(nf.guards_of(appends_all[0], lp)) if appends_all else None}`",
-                 want="same branch as the append that used delim")
+    txt = 'Sub ject?&=#%+\u00e4\n' + HOSTILE
+    for to in ('a@example.org', ['a@example.org', 'b@example.org']):
+        for cc in (None, 'c@example.org', ('c@example.org', 'd@example.org')):
+            for bcc in (None, ['e@example.org']):
+                for subject in (None, '', txt):
+                    for body in (None, txt + 'body'):
+                        got = _call(fx, it, 'make_make_email_data', to=to, cc=cc, bcc=bcc, subject=subject, body=body)
+                        why = ''
+                        if not isinstance(got, str) or not got.startswith('mailto:'):
+                            why = f'{got!r:.60}'
+                        else:
+                            head, q, query = got[7:].partition('?')
+                            tos = [to] if isinstance(to, str) else list(to)
+                            want_q = []
+                            for k, v in (('cc', cc), ('bcc', bcc)):
+                                if v:
+                                    want_q.append((k, ','.join([v] if isinstance(v, str) else v)))
+                            for k, v in (('subject', subject), ('body', body)):
+                                if v is not None:
+                                    want_q.append((k, v))
+                            if head != ','.join(tos):
+                                why = f'recipients {head!r}'
+                            elif bool(q) != bool(want_q):
+                                why = f'query part {query[:30]!r} for {len(want_q)} parameters'
+                            else:
+                                pairs = [tuple(x.partition('=')[::2]) for x in query.split('&')] if q else []
+                                dec = [(k, unquote(v) if k in ('subject', 'body') else v) for k, v in pairs]
+                                if dec != want_q:
+                                    why = f'parameters {pairs[:3]}'
+                                elif any(ch in v for k, v in pairs if k in ('subject', 'body') for ch in ' ?&=#\n\r"'):
+                                    why = 'a reserved character survives in a text parameter'
+                        yield ob(f'mailto to={len([to] if isinstance(to, str) else to)} cc={cc and len([cc] if isinstance(cc, str) else cc)} bcc={bool(bcc)} '
+                                 f'subject={"None" if subject is None else len(subject)} body={"None" if body is None else len(body)}', not why, fn,
+                                 got=why or 'a mailto URI carrying the values', want='a mailto URI carrying the values')
+    for bad in (None, '', []):
+        got = _call(fx, it, 'make_make_email_data', to=bad)
+        yield ob(f'mailto: to={bad!r} is refused', got == ('raises', 'ValueError'), fn, got=got if not isinstance(got, str) else 'accepted', want='ValueError')
     # geo
-    g = fx.fn('helpers', 'make_geo_data.float_to_str')
-    r = single([s for s in g.body if isinstance(s, ast.Return)], 'return of float_to_str')
+    gd = fx.fn('helpers', 'make_geo_data')
     samples = [0, 0.0, 1, -1, 10, 40.0, -120, 100, 90, 180, -180, 0.5, -0.5, 38.8976763, -77.0365298, 1e-8, 1.23456789e-3, 12.5, 99.99, 100.001,
                0.1, 0.10000001, 20, 30.25, -0.00000001, 51.4779, 7, 70, 700.07] + list(range(-180, 181, 10)) + [x / 8 for x in range(-40, 41)]
-    bad = []
-    for f in samples:
-        got = ev.ev(r.value, {'f': f})
+
+    def fixed(f):
         d = decimal.Decimal(repr(float(f))).quantize(decimal.Decimal('0.00000001'))
         want = format(d, 'f')
         if '.' in want:
             want = want.rstrip('0')
             if want.endswith('.'):
                 want = want[:-1]
-        if want in ('-0',):
-            want = '-0'
+        return want
+    bad = []
+    for k, f in enumerate(samples):
+        g = samples[-1 - k]
+        got = _call(fx, it, 'make_geo_data', lat=f, lng=g)
+        want = f'geo:{fixed(f)},{fixed(g)}'
         if got != want:
-            bad.append((f, got, want))
-    yield ob(f'float_to_str on {len(samples)} sample numbers (sampled)', not bad, r, got=bad[:4], want=[])
-    gd = fx.fn('helpers', 'make_geo_data')
-    rr = single([s for s in gd.body if isinstance(s, ast.Return)], 'return of make_geo_data')
-    yield ob('geo payload = geo:<lat>,<lng>', nf.same(rr.value, "f'geo:{float_to_str(lat)},{float_to_str(lng)}'"), rr,
-             got=ast.unparse(rr.value), want="f'geo:{float_to_str(lat)},{float_to_str(lng)}'")
+            bad.append((f, g, got, want))
+    yield ob(f'geo:<lat>,<lng> with fixed-point numbers (max. 8 decimals, no trailing zeros) on {len(samples)} sample pairs (sampled)', not bad, gd, got=bad[:3], want=[])
 
 
 class Txt(str):
@@ -375,19 +548,60 @@ def r5(fx):
         yield ob(f'encoding number {k} is written as the character-set line', len(lines) > 2 and lines[2] == str(k), fn, got=lines[:3], want=str(k))
     got = _epc(fx, it, name='n' * 70, iban='i' * 34, text='t' * 140, bic='b' * 11, purpose='pppp', amount='999999999.99')
     yield ob('maximal fields fit the 331-byte limit', isinstance(got, bytes) and len(got) <= 331, fn, got=len(got) if isinstance(got, bytes) else got, want='<= 331')
-    g = [s for s in fn.body if isinstance(s, ast.If) and pat.match(s.test, 'len(data) > 331') is not None and any(isinstance(x, ast.Raise) for x in s.body)]
-    enc_st = [s for s in fn.body if isinstance(s, ast.Assign) and ast.unparse(s.targets[0]) == 'data' and '.encode(encodings[charset - 1])' in ast.unparse(s.value)]
-    yield ob('331-byte guard on the encoded payload', len(g) == 1 and len(enc_st) == 1 and fn.body.index(enc_st[0]) < fn.body.index(g[0]), fn,
-             got=[ast.unparse(x.test) for x in g], want='if len(data) > 331: raise ValueError after encoding')
+    got = _epc(fx, it, name='\u00e4' * 70, iban='i' * 34, text='\u20ac' * 140, bic='b' * 11, purpose='pppp', amount='999999999.99', encoding=1)
+    yield ob('331-byte guard: fields within their character limits whose UTF-8 form exceeds 331 bytes are refused', got == VE, fn,
+             got=got if isinstance(got, str) else f'payload of {len(got)} bytes', want=VE)
+    got = _epc(fx, it, name='\u00e4' * 20, iban='i' * 22, text='\u20ac' * 60, encoding=1)
+    yield ob('multi-byte payload below the limit is accepted', isinstance(got, bytes) and len(got) <= 331, fn,
+             got=got if isinstance(got, str) else f'payload of {len(got)} bytes', want='payload <= 331 bytes')
     # make_epc_qr
     mq = fx.fn('helpers', 'make_epc_qr')
-    a = single([s for s in mq.body if isinstance(s, ast.Assign) and ast.unparse(s.targets[0]) == 'qr'], 'qr = segno.make_qr(...) in make_epc_qr')
-    b = pat.match(a.value, "segno.make_qr(_make_epc_qr_data(name, iban, amount, text, reference, bic, purpose, encoding), error='m', boost_error=False)")
-    kw = src.kwargs_of(a.value) if isinstance(a.value, ast.Call) else {}
-    yield ob("make_epc_qr: error level 'm', boost_error=False, all fields forwarded", b is not None, a, got=ast.unparse(a.value)[-60:],
-             want="error='m', boost_error=False")
-    gv = [s for s in mq.body if isinstance(s, ast.If) and pat.match(s.test, 'qr.version > 13') is not None and any(isinstance(x, ast.Raise) for x in s.body)]
-    yield ob('make_epc_qr: version > 13 is refused', len(gv) == 1, mq, got=[ast.unparse(x.test) for x in gv], want='if qr.version > 13: raise ValueError')
+    for version, want_ok in ((13, True), (14, False), (1, True), (40, False)):
+        rec, res = _run_factory(fx, it, 'make_epc_qr', '_make_epc_qr_data', version=version)
+        probs = []
+        if rec.get('data_args') != {p: f'<{p}>' for p in src.params(mq)}:
+            probs.append(f'fields not forwarded one to one: {rec.get("data_args")}')
+        mk = rec.get('make_qr')
+        if mk is None or mk[0] != '<payload>' or mk[1].get('error') not in ('m', 'M') or mk[1].get('boost_error') is not False or \
+                set(mk[1]) - {'error', 'boost_error', 'encoding', 'version'} or mk[1].get('version') not in (None,):
+            probs.append(f'make_qr called with {mk}')
+        if want_ok and not (isinstance(res, QRModel)):
+            probs.append(f'version {version}: {res}')
+        if not want_ok and res != ('raises', 'ValueError'):
+            probs.append(f'version {version} accepted')
+        yield ob(f"make_epc_qr: payload of the data function, level M, no boosting; resulting version {version} {'accepted' if want_ok else 'refused'}", not probs, mq,
+                 got='; '.join(probs) or 'as required', want='as required')
+
+
+class QRModel:
+    _model = ('version',)
+
+    def __init__(self, version):
+        self.version = version
+
+
+def _run_factory(fx, it, fac, dat, version=5):
+    """Interpret the factory with a marker per parameter, a recording data function and a recording segno.make_qr."""
+    rec = {}
+    fn = fx.fn('helpers', fac)
+    dfn = fx.fn('helpers', dat)
+
+    def data_fn(*a, **k):
+        dparams = src.params(dfn)
+        bound = dict(zip(dparams, a))
+        bound.update(k)
+        rec['data_args'] = bound
+        return '<payload>'
+
+    def make_qr(content, **k):
+        rec['make_qr'] = (content, k)
+        return QRModel(version)
+    genv = callable_env(fx.forest, 'helpers', it, {dat: data_fn, 'segno': ev.Namespace('segno', {'make_qr': make_qr})})
+    try:
+        res = FuncVal(fn, genv, it)(**{p: f'<{p}>' for p in src.params(fn)})
+    except PyRaise as e:
+        res = ('raises', e.name)
+    return rec, res
 
 
 FACTORIES = {'make_wifi': 'make_wifi_data', 'make_mecard': 'make_mecard_data', 'make_vcard': 'make_vcard_data', 'make_geo': 'make_geo_data',
@@ -396,20 +610,14 @@ FACTORIES = {'make_wifi': 'make_wifi_data', 'make_mecard': 'make_mecard_data', '
 
 @rule('C16', 'R6', 5, 'every make_* factory returns segno.make_qr(<its *_data payload>) with every parameter forwarded to the same-named one')
 def r6(fx):
+    it = Interp()
     for fac, dat in FACTORIES.items():
         fn = fx.fn('helpers', fac)
         dfn = fx.fn('helpers', dat)
-        r = single([s for s in fn.body if isinstance(s, ast.Return)], f'return of {fac}')
-        b = pat.match(r.value, 'segno.make_qr(H_p)')
-        need(b is not None and isinstance(b['p'], ast.Call) and src.call_name(b['p']) == dat, f'{fac}: not segno.make_qr({dat}(...))')
-        call = b['p']
-        dparams = src.params(dfn)
-        bound = {}
-        for i, a in enumerate(call.args):
-            bound[dparams[i]] = a
-        for k in call.keywords:
-            bound[k.arg] = k.value
-        bad = [p for p in src.params(fn) if not (isinstance(bound.get(p), ast.Name) and bound[p].id == p)]
-        same_sig = src.params(fn) == dparams and {k: ast.unparse(v) for k, v in src.param_defaults(fn).items()} == \
+        rec, res = _run_factory(fx, it, fac, dat)
+        want_args = {p: f'<{p}>' for p in src.params(fn)}
+        same_sig = src.params(fn) == src.params(dfn) and {k: ast.unparse(v) for k, v in src.param_defaults(fn).items()} == \
             {k: ast.unparse(v) for k, v in src.param_defaults(dfn).items()}
-        yield ob(f'{fac} -> make_qr({dat}(...))', not bad and same_sig, r, got=f'not forwarded: {bad}; same signature: {same_sig}', want='all forwarded, same signature')
+        ok = rec.get('data_args') == want_args and rec.get('make_qr') == ('<payload>', {}) and isinstance(res, QRModel) and same_sig
+        yield ob(f'{fac} -> make_qr({dat}(...))', ok, fn, got=f'data function got {rec.get("data_args")}; make_qr got {rec.get("make_qr")}; same signature: {same_sig}'
+                 if not ok else 'all forwarded', want='all forwarded, same signature, make_qr(<payload>)')
